@@ -14,6 +14,7 @@ CONSTANTS
   MaxRep = 44
   HistLen = 1
   MaxSimStr = 0
+  Ends = {"past", "none", "future", "tpast", "tfuture"}
   Pick <- PickAll
 INVARIANTS Emit
 CHECK_DEADLOCK FALSE
